@@ -229,7 +229,10 @@ def run_model(cases, results, what="model", tag="drv"):
             if "ast_in" not in cout:
                 continue
             keys.append((ci, ki))
-            blocks.append(driver_block("%d.%d" % (ci, ki), r["config"], r["prefix"], cin, cout, what))
+            w = what
+            if cout.get("outcome") == "ok" and (cout["result"].get("metrics") or {}).get("status") == "modified":
+                w += ",modified"
+            blocks.append(driver_block("%d.%d" % (ci, ki), r["config"], r["prefix"], cin, cout, w))
     if not blocks:
         return {}
     shards = min(NJOBS, max(1, len(blocks) // 40))
